@@ -93,6 +93,13 @@ def removed_diffs(expr, kname):
                 isinstance(cond, ast.Compare) and len(cond.ops) == 1:
             j = g.target.elts[0].id
             c = cond
+            if not (isinstance(c.left, ast.Name) and c.left.id == j) and isinstance(c.comparators[0], ast.Name) and \
+                    c.comparators[0].id == j:
+                # `k <op> j` is `j <flipped op> k`
+                flip = {ast.Eq: ast.Eq, ast.NotEq: ast.NotEq, ast.Lt: ast.Gt, ast.Gt: ast.Lt, ast.LtE: ast.GtE,
+                        ast.GtE: ast.LtE}.get(type(c.ops[0]))
+                if flip is not None:
+                    c = ast.Compare(left=c.comparators[0], ops=[flip()], comparators=[c.left])
             if isinstance(c.left, ast.Name) and c.left.id == j:
                 off = _offset(c.comparators[0], kname)
                 op = type(c.ops[0])
@@ -158,10 +165,15 @@ def _removal_expr(body, side, cname, kname):
             t = norm(st.test)
             if cname in t and ('<' in t or '>' in t):
                 # i < c  -> other choice is before the taken one
-                before_first = isinstance(st.test, ast.Compare) and isinstance(st.test.ops[0], ast.Lt) and \
-                    norm(st.test.comparators[0]) == cname
-                after_first = isinstance(st.test, ast.Compare) and isinstance(st.test.ops[0], ast.Gt) and \
-                    norm(st.test.comparators[0]) == cname
+                tst = st.test
+                if isinstance(tst, ast.Compare) and len(tst.ops) == 1 and norm(tst.left) == cname:
+                    flip = {ast.Lt: ast.Gt, ast.Gt: ast.Lt, ast.LtE: ast.GtE, ast.GtE: ast.LtE}.get(type(tst.ops[0]))
+                    if flip is not None:        # `c > i` is `i < c`
+                        tst = ast.Compare(left=tst.comparators[0], ops=[flip()], comparators=[tst.left])
+                before_first = isinstance(tst, ast.Compare) and isinstance(tst.ops[0], ast.Lt) and \
+                    norm(tst.comparators[0]) == cname
+                after_first = isinstance(tst, ast.Compare) and isinstance(tst.ops[0], ast.Gt) and \
+                    norm(tst.comparators[0]) == cname
                 if not (before_first or after_first):
                     raise AnalysisError(f'A14: unrecognised side test `{t}`')
                 pick_body = (side == 'other_before') == before_first
